@@ -37,7 +37,7 @@ func (P) Engine() string { return "E1" }
 
 func (P) Describe() harness.Description {
 	return harness.Description{
-		MustHit: []string{"bucket_recycled", "read_exactly_on_bucket_boundary", "idle_gap_longer_than_array", "previous_qps_checked", "per_second_items_nonempty"},
+		MustHit: []string{"average_read_while_the_clock_moves", "bucket_recycled", "read_exactly_on_bucket_boundary", "idle_gap_longer_than_array", "previous_qps_checked", "per_second_items_nonempty"},
 		Level:   "exploration",
 		Rule: "case = (array geometry, 1-5 candidate views valid and invalid, virtual origin incl. near zero, 20-200 ops add/rt/conc/tick/read with ticks biased to bucket, cycle and second boundaries and idle gaps > array); " +
 			"every read compares every getter of BucketLeapArray, SlidingWindowMetric views and a BaseStatNode with the event-log aggregate; non-trivial = at least one read saw a non-empty window after a bucket was recycled or read exactly on a bucket boundary; distinct = hash(config, ops)",
@@ -135,11 +135,72 @@ func (P) Gen(rng *sim.Rng, tier string) *harness.Case {
 			now += d
 			ops = append(ops, harness.Op{K: "tick", N: d})
 		default:
+			if rng.Chance(0.12) {
+				// clock fault: time moves on while an average is being read (between the two sums it divides)
+				d := genTick(rng, now, uint64(L), I)
+				if d > 0 {
+					now += d
+					ops = append(ops, harness.Op{K: "avgtick", N: d})
+					break
+				}
+			}
 			ops = append(ops, harness.Op{K: "read", F: rng.Chance(0.5)})
 		}
 	}
 	ops = append(ops, harness.Op{K: "read"})
 	return &harness.Case{Cfg: harness.MustJSON(cfg), Callers: [][]harness.Op{ops}}
+}
+
+// checkAvgAcrossTick reads every average while the clock moves on by d ms at the second clock reading of the
+// call. "The window ending at the current bucket" is then the one of the instant before or of the instant after:
+// the result must be the average of one of the two, not a quotient of sums taken from different windows.
+func checkAvgAcrossTick(o *harness.Outcome, step int, cfg *Cfg, s *subject, ref *model.WindowLog, clk *sim.Clock, now, d uint64) {
+	avgAt := func(t uint64, iv uint32) (float64, bool) {
+		lo, hi := ref.Range(t, uint64(iv))
+		comp := ref.Sum(model.KComplete, lo, hi)
+		if comp <= 0 {
+			return 0, false
+		}
+		return float64(ref.Sum(model.KRt, lo, hi)) / float64(comp), true
+	}
+	one := func(name string, iv uint32, isNode bool, read func() float64) {
+		clk.SetNs(now * 1e6)
+		reads, moved := 0, false
+		clk.OnRead = func() {
+			reads++
+			if reads == 2 && !moved {
+				moved = true
+				clk.AdvanceMs(d)
+			}
+		}
+		got := read()
+		clk.OnRead = nil
+		o.Probe("average_read_while_the_clock_moves")
+		if moved {
+			o.Probe("clock_read_twice_by_one_statistic_read")
+		}
+		x0, ok0 := avgAt(now, iv)
+		x1, ok1 := avgAt(now+d, iv)
+		match := func(x float64, ok bool) bool {
+			if ok {
+				return feq(got, x)
+			}
+			// no completion in that window: the node reports 0, a bare view divides by zero
+			return (isNode && got == 0) || (!isNode && (math.IsNaN(got) || math.IsInf(got, 0)))
+		}
+		if !match(x0, ok0) && !match(x1, ok1) {
+			o.Fail("C08.avgrt-mixes-two-windows", step, "%s(i=%d).AvgRT() while the clock moved from t=%d to t=%d during the call returned %v; the window at t=%d gives %v (has completions: %v), the one at t=%d gives %v (%v): the result is the average of neither", name, iv, now, now+d, got, now, x0, ok0, now+d, x1, ok1)
+		}
+	}
+	for i, m := range s.views {
+		m := m
+		one("view", s.vcfg[i].I, false, m.AvgRT)
+		if o.Failed() {
+			return
+		}
+	}
+	one("node", cfg.NodeV.I, true, s.node.AvgRT)
+	clk.SetNs((now + d) * 1e6)
 }
 
 // genTick draws a time step biased to boundaries.
@@ -281,6 +342,13 @@ func (P) Exec(c *harness.Case) *harness.Outcome {
 					ref.Add(now, model.KConc, int64(op.N))
 				}
 			})
+		case "avgtick":
+			if op.N == 0 {
+				continue
+			}
+			harness.Call(o, "C08.panic", step, func() { checkAvgAcrossTick(o, step, &cfg, &s, ref, clk, now, op.N) })
+			o.SimMs += op.N
+			o.Fault("clock_moved_on_during_a_read")
 		case "read":
 			if now%L == 0 {
 				o.Probe("read_exactly_on_bucket_boundary")
@@ -389,11 +457,8 @@ func checkRead(o *harness.Outcome, step int, cfg *Cfg, s *subject, ref *model.Wi
 			x := float64(ref.Sum(model.KRt, lo, hi)) / float64(comp)
 			got := m.AvgRT()
 			if isNode {
-				if !(feq(got, x) || feq(got, math.Floor(x))) {
-					o.Fail("C08.node-avgrt", step, "t=%d node.AvgRT()=%v, reference %v", now, got, x)
-				}
 				if !feq(got, x) {
-					o.Ambiguous++
+					o.Fail("C08.node-avgrt", step, "t=%d node.AvgRT()=%v, reference %v", now, got, x)
 				}
 			} else if !feq(got, x) {
 				o.Fail("C08.view-avgrt", step, "t=%d %s(n=%d,i=%d).AvgRT()=%v, reference %v", now, name, v.N, v.I, got, x)
